@@ -90,9 +90,16 @@ def draws_for(rng, o, h):
     return sorted(set(x for x in d if x >= 0))[:10]
 
 
-def generate(rng, run, tier):
+def _generate(rng, run, tier):
     h, o, mode, where = gen_case(rng)
     return {'h': h, 'x': o, 'mode': mode, 'where': where, 'conf': entry.gen_conf(rng), 'draws': draws_for(rng, o, h)}
+
+
+def generate(rng, run, tier):
+    case = _generate(rng, run, tier)
+    # the calling convention of the decorated callable (drawn last: the rest of the case is as it was without it)
+    case['sig'] = entry.gen_sig(rng)
+    return case
 
 
 def _hint_named(msg, hint):
@@ -117,7 +124,7 @@ def execute(case):
     probes = {k: 0 for k in PROBES}
     probes['cases'] = 1
     try:
-        prep = entry.Prepared(hint, case['conf'])
+        prep = entry.Prepared(hint, case['conf'], sig=case.get('sig', 'pos'))
     except Exception as e:      # noqa
         return _out(case, probes, ('non_violation_exception', 'preparing checkers for %r raised %s: %s' % (
             hint, type(e).__name__, str(e)[:300]), 'prepare:' + type(e).__name__))
@@ -277,6 +284,8 @@ def shrink_obj(o):
 
 
 def shrink(case, violation):
+    if case.get('sig', 'pos') != 'pos':
+        yield dict(case, sig='pos')
     if len(case['draws']) > 1:
         for d in case['draws']:
             yield dict(case, draws=[d])
@@ -304,4 +313,4 @@ SIGNATURES = {}
 
 
 def describe(case):
-    return {'hint': case['h'], 'object': case['x'], 'conf': case['conf'], 'draws': case['draws'], 'mode': case['mode']}
+    return {'sig': case.get('sig', 'pos'), 'hint': case['h'], 'object': case['x'], 'conf': case['conf'], 'draws': case['draws'], 'mode': case['mode']}
